@@ -555,7 +555,16 @@ class TagAttrDict(Dict[str, "str | HTML"]):
                 nm = self._normalize_attr_name(k)
 
                 if nm in attrz:
-                    val = attrz[nm] + " " + val
+                    old = attrz[nm]
+                    # If either value is HTML(), the merged value is HTML() and is later
+                    # written into the tag as is, so a plain value must be escaped as
+                    # attribute text (quotes and line breaks included) before merging.
+                    if isinstance(old, HTML) or isinstance(val, HTML):
+                        if not isinstance(old, HTML):
+                            old = HTML(html_escape(old, attr=True))
+                        if not isinstance(val, HTML):
+                            val = HTML(html_escape(val, attr=True))
+                    val = old + " " + val
 
                 attrz[nm] = val
 
